@@ -168,5 +168,5 @@ func (c *Client) EnsurePipe(ctx context.Context, p api.Pipe, res *api.PipeCreate
 		_ = c.Close()
 	}
 
-	return nil
+	return err
 }
